@@ -21,8 +21,18 @@ def _series(rng, n, dim=1):
                                            for _ in range(dim - 1)]) * 16) / 16
 
 
+COPY_INPUTS = [True]      # C06 switches this off to hand the model's own
+#                           arrays to the library (purity of caller inputs)
+
+
+def _c(a):
+    return a.copy() if COPY_INPUTS[0] else a
+
+
 class Subject:
     name = "?"
+    culprits = ()              # (label, fn(obj)) random / object-returning
+    #                            methods that take part as culprits only
     attrs = ()                 # summary attributes read as queries
     deny = ()                  # extra methods excluded from reflection
     max_patterns = 4
@@ -275,7 +285,7 @@ class ClimateNetworkS(Subject):
     def build(self, m):
         from pyunicorn.climate import ClimateNetwork
         from pvm.gen.objects import geogrid
-        net = ClimateNetwork(geogrid(m["lat"], m["lon"]), m["S"].copy(),
+        net = ClimateNetwork(geogrid(m["lat"], m["lon"]), _c(m["S"]),
                              threshold=m["thr"], non_local=m["non_local"],
                              node_weight_type=m["nwt"], silence_level=3)
         for k, W in m["attrs"].items():
@@ -334,7 +344,7 @@ class TsonisS(Subject):
     def build(self, m):
         from pyunicorn import climate
         from pvm.gen.objects import climate_data
-        cd = climate_data(m["obs"].copy(), m["lat"], m["lon"], cycle=12)
+        cd = climate_data(_c(m["obs"]), m["lat"], m["lon"], cycle=12)
         net = getattr(climate, self.cls)(
             cd, threshold=m["thr"], non_local=m["non_local"],
             winter_only=m["winter"], silence_level=3, **self.kw)
@@ -411,7 +421,7 @@ class RecurrencePlotS(Subject):
     def build(self, m):
         from pyunicorn import timeseries
         return getattr(timeseries, self.cls)(
-            m["x"].copy(), metric=m["metric"], silence_level=3, **self._kw(m))
+            _c(m["x"]), metric=m["metric"], silence_level=3, **self._kw(m))
 
     def mutators(self):
         out = []
@@ -458,7 +468,7 @@ class JointRecurrencePlotS(Subject):
     def build(self, m):
         from pyunicorn import timeseries
         return getattr(timeseries, self.cls)(
-            m["x"].copy(), m["y"].copy(), lag=m["lag"], silence_level=3,
+            _c(m["x"]), _c(m["y"]), lag=m["lag"], silence_level=3,
             **{m["mode"][0]: m["mode"][1]})
 
     def mutators(self):
@@ -503,7 +513,7 @@ class CrossRecurrencePlotS(Subject):
 
     def build(self, m):
         from pyunicorn.timeseries import CrossRecurrencePlot
-        return CrossRecurrencePlot(m["x"].copy(), m["y"].copy(),
+        return CrossRecurrencePlot(_c(m["x"]), _c(m["y"]),
                                    metric=m["metric"], silence_level=3,
                                    **{m["mode"][0]: m["mode"][1]})
 
@@ -534,7 +544,7 @@ class ISRNS(Subject):
 
     def build(self, m):
         from pyunicorn.timeseries import InterSystemRecurrenceNetwork as I
-        return I(m["x"].copy(), m["y"].copy(), silence_level=3,
+        return I(_c(m["x"]), _c(m["y"]), silence_level=3,
                  **{m["mode"][0]: m["mode"][1]})
 
     def mutators(self):
@@ -571,7 +581,7 @@ class ResNetworkS(Subject):
 
     def build(self, m):
         from pyunicorn.core import ResNetwork
-        return ResNetwork(m["R"].copy(), silence_level=3)
+        return ResNetwork(_c(m["R"]), silence_level=3)
 
     def mutators(self):
         def upd(o, m, r):
@@ -613,7 +623,7 @@ class ClimateDataS(Subject):
 
     def build(self, m):
         from pvm.gen.objects import climate_data
-        return climate_data(m["obs"].copy(), m["lat"], m["lon"],
+        return climate_data(_c(m["obs"]), m["lat"], m["lon"],
                             cycle=m["cycle"], anomalies=m["anom"],
                             window=copy.deepcopy(m["window"]))
 
@@ -646,7 +656,7 @@ class ClimateDataS(Subject):
 
 class SurrogatesS(Subject):
     name = "Surrogates"
-    attrs = ("N", "n_time", "original_data")
+    attrs = ("N", "n_time", "original_data", "embedding")
     deny = ("embed_time_series_array", "recurrence_plot",
             "test_pearson_correlation", "test_mutual_information")
 
@@ -657,9 +667,13 @@ class SurrogatesS(Subject):
 
     def build(self, m):
         from pyunicorn.timeseries import Surrogates
-        s = Surrogates(m["x"].copy(), silence_level=3)
+        s = Surrogates(_c(m["x"]), silence_level=3)
         if m["normalized"]:
             s.normalize_original_data()
+        #  twins() works on the object's current embedding: part of the model
+        s.embedding = Surrogates.embed_time_series_array(
+            s.original_data, m.get("dim", 2), m.get("tau", 1),
+            silence_level=3)
         return s
 
     def mutators(self):
